@@ -2013,6 +2013,11 @@ fn is_single_line_comment(content: &str) -> bool {
     !is_multiline_comment
 }
 
+#[cfg(feature = "verif")]
+pub fn verif_is_single_line_comment(content: &str) -> bool {
+    is_single_line_comment(content)
+}
+
 #[inline]
 fn comma_token() -> Token {
     Token::from_content(",").with_trailing_trivia(TriviaKind::Whitespace.with_content(" "))
